@@ -15,7 +15,6 @@ import (
 	"io"
 	"os"
 	"path/filepath"
-	"strings"
 
 	"github.com/oxia-db/oxia/proto"
 
@@ -98,7 +97,7 @@ func (h *H) onFlush(point string) {
 }
 
 // doKill: kind 0 / 1 as above.  Returns false when no usable image could be taken (counted, no verdict).
-func (h *H) doKill(kind int) bool {
+func (h *H) doKill(kind int, probe bool) bool {
 	img, err := os.MkdirTemp(scratchBase(), "node-img-")
 	hx.Must(err)
 	h.mu.Lock()
@@ -176,23 +175,17 @@ func (h *H) doKill(kind int) bool {
 	}
 	h.mu.Unlock()
 	h.openDirector()
-	// the term the restarted node has: a controller is created by a request that is refused (Truncate of term -7)
-	_, _ = h.rpc.Truncate(context.Background(), &proto.TruncateRequest{Namespace: namespace, Shard: shardId, Term: -7,
-		HeadEntryId: &proto.EntryId{Term: -1, Offset: -1}})
-	v := strings.Split(h.statusView(), ",")
-	if len(v) >= 2 && v[0] != "N" {
-		term := atoi(v[1])
-		if term < h.fencedTerm {
-			if h.snapFailed {
-				h.o.Count("kill:term-lost-after-failed-snapshot(known finding)")
-			} else {
-				h.violate("restart:term-regressed-after-kill", fmt.Sprintf(
-					"the node had answered NewTerm(%d); killed right after an answer and restarted on the image (kind %d) it is in term %d", h.fencedTerm, kind, term))
-			}
-			h.fencedTerm = term
-		}
+	h.killed = true
+	if h.snapFailed {
+		h.termLost = true
 	}
-	h.snapFailed, h.termLost = false, false
+	if probe {
+		// the term the restarted node has: a controller is created by a request that is refused (Truncate of term -7);
+		// without the probe the shard stays NOT loaded and the term is looked at after the next request
+		_, _ = h.rpc.Truncate(context.Background(), &proto.TruncateRequest{Namespace: namespace, Shard: shardId, Term: -7,
+			HeadEntryId: &proto.EntryId{Term: -1, Offset: -1}})
+		h.checkTermRegress(h.statusView())
+	}
 	h.acts = append(h.acts, fmt.Sprintf("KL:%d", kind))
 	h.outs = append(h.outs, "ok|-|-|"+h.statusView())
 	return true
